@@ -208,6 +208,7 @@ def lemmas(ctx):
 
 
 def run(ctx):
+    tlc.apalache_inductive(ctx, "S (sub-block loop), B (blocks / files / PKTIDX)")
     lemmas(ctx)
     run_for(ctx, "C02")
     trace_leg(ctx, "C02")
